@@ -7,6 +7,14 @@ TB = ("Coq 8.16.1 kernel; axioms as printed by Print Assumptions (allow-list in 
       "tied to /repo only by that correspondence (DESIGN.md section 8)")
 
 CHECKS = {
+ "C12": dict(
+   text="Machine-checked theorems (all argument lists, all substitutions): every finished evaluation of add/subtract/"
+        "multiply/divide returns the left-to-right fold of the resolved arguments - in Z with truncating division when "
+        "all are integers, in IEEE-754 binary64 as formalised by Flocq (integers converted, round to nearest even) when "
+        "any is a float - and conversely inside the claim (no i64 overflow, no integer zero divisor) the evaluation "
+        "finishes with that value. Tied to the code by differential execution with results compared by bit pattern. "
+        "The infix-parser half of the property is covered by the parser properties (C19/C20).", ref="7/C12",
+   technique="Coq proof of model = fold specification (Properties/C12.v, Flocq binary64) + model-vs-implementation correspondence via extraction"),
  "C14": dict(
    text="Machine-checked theorem (all operand pairs, all substitutions): the comparison predicates return the unchanged "
         "substitution exactly when both operands resolve to constants ordered as demanded (lexicographic / numeric with "
@@ -59,6 +67,6 @@ def main():
     with open(os.path.join(VERIF, "MANIFEST.json"), "w") as f:
         json.dump(m, f, indent=1)
 
-HOOK_COMMITS = []
+HOOK_COMMITS = ["688dc2a", "b29e872"]
 if __name__ == "__main__":
     main()
